@@ -176,3 +176,33 @@ class GateCallKeyword:
 
     def inv_3(self, args, kwargs, params, _k):
         return forall_range(_k, lambda j: fits(self._parameters[j]._kind, dict_lookup(old(kwargs), self._parameters[j]._name)))
+
+
+# ---------------------------------------------------------------- C13 / C18: which qubits a definition says it uses
+from jaqalpaq.core.gatedef import BusyGateDefinition
+
+
+@contract("core.gatedef:IdleGateDefinition.used_qubits", props=["C13", "C18"])
+class IdleUsedQubits:
+    """an idle gate uses no qubit at all, whatever gate it is derived from (busy ones included)"""
+
+    def requires(self):
+        return isinstance(self, IdleGateDefinition)
+
+    def ensures(self, result):
+        return isinstance(result, list) and len(result) == 0
+
+    raises_only = ()
+
+
+@contract("core.gatedef:BusyGateDefinition.used_qubits", props=["C13"])
+class BusyUsedQubits:
+    """a busy gate (prepare_all, measure_all, ...) uses ALL qubits: it reports the marker `all` and nothing else"""
+
+    def requires(self):
+        return isinstance(self, BusyGateDefinition)
+
+    def ensures(self, result):
+        return isinstance(result, list) and len(result) == 1 and same(result[0], all)
+
+    raises_only = ()
